@@ -368,6 +368,61 @@ func init() {
 				}
 			}
 		}
+		// summary tables when the only findings are fatal (a configuration the lint cannot read), under a selection that
+		// keeps nothing else: the counts are the counts of the library's results
+		{
+			badCfg := "[e_rsa_fermat_factorization]\nRounds = \"plenty\"\n[e_subj_contains_html_entities]\nSkip = 7\n"
+			badPath := filepath.Join(tmp, "bad.toml")
+			os.WriteFile(badPath, []byte(badCfg), 0o600)
+			cfg, cerr := lint.NewConfigFromString(badCfg)
+			rowRe := regexp.MustCompile(`\|\s*(info|warn|error|fatal)\s*\|\s*(\d+)\s*\|`)
+			if cerr == nil && len(certs) > 0 {
+				for _, sel := range []selection{
+					{[]string{"-includeNames", "e_rsa_fermat_factorization"}, lint.FilterOptions{IncludeNames: []string{"e_rsa_fermat_factorization"}}},
+					{[]string{"-includeNames", "e_rsa_fermat_factorization,e_subj_contains_html_entities"}, lint.FilterOptions{IncludeNames: []string{"e_rsa_fermat_factorization", "e_subj_contains_html_entities"}}},
+					{[]string{"-nameFilter", "^e_rsa_fermat"}, lint.FilterOptions{NameFilter: regexp.MustCompile("^e_rsa_fermat")}},
+					{nil, lint.FilterOptions{}},
+				} {
+					for _, long := range []string{"-summary", "-longSummary"} {
+						cc := certs[0]
+						pth := filepath.Join(tmp, "fatalonly.pem")
+						os.WriteFile(pth, pem.EncodeToMemory(&pem.Block{Type: "CERTIFICATE", Bytes: cc.DER}), 0o600)
+						r := runCLI(bin, append(append([]string{"-config", badPath, long}, sel.flags...), pth), nil)
+						invocations++
+						g.SetConfiguration(cfg)
+						reg := lint.Registry(g)
+						if !sel.opts.Empty() {
+							if fr, e := g.Filter(sel.opts); e == nil {
+								reg = fr
+							}
+						}
+						want := map[string]int{"info": 0, "warn": 0, "error": 0, "fatal": 0}
+						for _, v := range zlint.LintCertificateEx(cc.Cert, reg).Results {
+							switch v.Status {
+							case lint.Notice:
+								want["info"]++
+							case lint.Warn:
+								want["warn"]++
+							case lint.Error:
+								want["error"]++
+							case lint.Fatal:
+								want["fatal"]++
+							}
+						}
+						g.SetConfiguration(lint.NewEmptyConfig())
+						got := map[string]int{}
+						for _, m := range rowRe.FindAllStringSubmatch(r.stdout, -1) {
+							n, _ := strconv.Atoi(m[2])
+							got[m[1]] = n
+						}
+						if r.code != 0 || got["fatal"] != want["fatal"] || got["error"] != want["error"] || got["warn"] != want["warn"] || got["info"] != want["info"] {
+							out.Violate("C15|summary-counts-fatal", fmt.Sprintf("summary table %v (exit %d) differs from the library's counts %v under %v with an unreadable configuration section", got, r.code, want, append([]string{long}, sel.flags...)),
+								map[string]interface{}{"file": cc.File, "flags": append([]string{"-config", "bad.toml", long}, sel.flags...), "config": badCfg}, want, got)
+						}
+					}
+				}
+			}
+		}
 		// several files per invocation, mixed suffixes and encodings: every file is decoded as it would be alone under
 		// the same -format (the format is a function of the flag and of that file's own suffix), output lines appear in
 		// order, and the first failing file ends the run with a non-zero exit
